@@ -66,6 +66,36 @@ CHECKS = {
              "duplicate attempt ids) is reported as KNOWN-FINDING; F2 was repaired (9f47308)",
         technique="TLA+ spec + TLC complete-state-space model checking + TLC trace validation of both backends incl. linearizability search",
         design_ref="DESIGN.md 4.12, 5/C16, 10.3"),
+    "C17": dict(
+        category="model_checking",
+        text="spec/CoopClose: (i) the closing transaction (CoopCloseBalance, CreateCooperativeCloseTx, proposal/complete; "
+             "refusals 'unaffordable'/'no outputs' explicit) is checked by TLC over a grid of balances around both dust "
+             "limits and msat remainders x commit fee x anchors x opener x payer x fees within +-1 sat of every threshold "
+             "(ExactBalance, DustOmitted, Conservation, SameTx); (ii) the legacy fee negotiation (calcCompromiseFee, "
+             "feeInAcceptableRange, ratchetFee, max-fee abort, taproot rule) is checked for all ideal-fee pairs in a range "
+             "(Bounded, BothSigned, Agree, NoStall). TLC behaviours and a free driver are executed on real channel pairs of 8 "
+             "channel types (MuSig2 for taproot) through CreateCloseProposal/CompleteCooperativeClose, on two real "
+             "ChanClosers back to back, and on the RBF-coop transitions one round at a time; outputs, fees, every proposed "
+             "fee, raw-byte equality of both parties' transactions and script-engine validity are validated by TLC.",
+        note="negotiation assumes honest peers and in-order delivery; RBF-coop is modelled coarsely (one round, no protofsm "
+             "loop); negotiation runs use the 10 BTC fixture (fees/equality compared, output values compared in part i); "
+             "latent RBF lock-time mismatch when Environment.BlockHeight != 0 is recorded as an observation (DESIGN 0b)",
+        technique="TLA+ spec + TLC exhaustive grids + replay on real lnwallet/chancloser code + TLC trace validation",
+        design_ref="DESIGN.md 4.13, 5/C17"),
+    "C18": dict(
+        category="model_checking",
+        text="spec/SweepFee transcribes LinearFeeFunction (start/end/width/position/delta in msat/kw, exact integer arithmetic "
+             "with both neighbours allowed only at exact .5 float ties) and the TxPublisher handlers (MaxFeeRateAllowed, "
+             "createAndCheckTx, initial broadcast loop, fee bump, retry) with one action per call; TLC checks FFMonotone, "
+             "FFBelowEnd, FFAboveFloor, FFCeilByDeadline, PubFeeLeBudget, PubRateLeMax, PubNoDust, PubCeilByDeadline ... over "
+             "start/end/width grids incl. the rounding classes and all conf-target walks; generated behaviours, directed "
+             "schedules and a free driver are executed on the real sweep package and every recorded rate, fee, weight, output "
+             "and error class is validated by TLC.",
+        note="wallet, signer, estimator and mempool are the package's mocks; monitor goroutines are bypassed (handlers called "
+             "synchronously); rates capped at 2e6 sat/kw for 32-bit TLC; F12/F13 were repaired (1bf8303, 8b358ae) and their "
+             "directed schedules must now pass",
+        technique="TLA+ spec + TLC model checking + TLC trace validation of generated, directed and free-running executions",
+        design_ref="DESIGN.md 4.14, 5/C18"),
     "C06": dict(
         category="model_checking",
         text="spec/Shachain is checked exhaustively by TLC for trees of height 4-5 (thorough: up to 8) incl. corrupted "
